@@ -30,6 +30,9 @@ def check(chk, repo):
     nd = check_decorator_domain(rep, M)
     from ..rules_metrics import check_shift_wrapper
     check_shift_wrapper(rep, M)
+    # a metric (or its wrapper) that writes through its arguments returns different values for the same pair later on
+    from ..common import check_metric_purity
+    check_metric_purity(rep, repo)
     chk.floor("metrics that need the zero-avoiding shift", nd, 30)
     # identifier and function stay paired for the life of the object: nothing but OPF.__init__ writes either
     # of them, and load installs the saved object's state as a whole (same rule as C19)
